@@ -347,6 +347,29 @@ def stepI (d : DSt) (c : String) (a : List Int) : DSt × String :=
     | some x => if (xposOf d x).isSome then bad else
         observe { d with st := xnewAt d.st 4 v0, xids := d.xids ++ [(x, true)] } "ok"
     | none => bad
+  | "fnewl", [x, v0] =>
+    -- x := new FixedArray<int,false,4>{v0, v0+1, v0+2, v0+3}: the initializer-list constructor; the object owns its memory itself
+    match nat? x with
+    | some x => if (xposOf d x).isSome then bad else
+        observe { d with st := xnewAt d.st 4 v0, xids := d.xids ++ [(x, true)] } "ok"
+    | none => bad
+  | "inewm", [k, r, v0] =>
+    -- k := new intMatrix{{v0,v0+1,v0+2},{v0+3,v0+4,v0+5}} (r = 0) / {{v0,v0+1,v0+2},{v0+3}} (r = 1: the short row is zero-filled)
+    match nat? k with
+    | some k =>
+      if (posOf d k).isSome ∨ r < 0 ∨ r > 1 then bad
+      else if r = 0 then doNew d k (.newList .mat 2 3 v0)
+      else newVia d k (fun p => [.newList .mat 2 3 v0, .write p 4 0, .write p 5 0])
+    | none => bad
+  | "ial", [x, n, v0] =>
+    -- x = {v0, …, v0+n-1}: assignment of an initializer list to a vector
+    match nat? x >>= posOf d with
+    | some px =>
+      match d.st.pool[px]? with
+      | some ox => if n < 1 ∨ n > 4 ∨ !ox.kind.isVec then bad else
+                   if !usableAt d px then skip else doOp d (.assignList px n.toNat v0)
+      | none => bad
+    | none => bad
   | "xw", [x, i, v] =>
     match nat? x >>= xposOf d, nat? i with
     | some (px, _), some i => doOp d (.xwrite px i v)
@@ -558,6 +581,14 @@ def stepI (d : DSt) (c : String) (a : List Int) : DSt × String :=
       | some kd, [k] =>
         match nat? k with
         | some k => if (posOf d k).isSome then bad else doNew d k (.newEmpty kd)
+        | none => bad
+      | _, _ => bad
+    else if c.startsWith "inew" then
+      -- k := new X{v0, …, v0+n-1}: a vector constructed from an initializer list
+      match kindOfSuffix (c.drop 4).toString, a with
+      | some kd, [k, n, v0] =>
+        match nat? k with
+        | some k => if !kd.isVec ∨ (posOf d k).isSome ∨ n < 1 ∨ n > 4 then bad else doNew d k (.newList kd n.toNat 0 v0)
         | none => bad
       | _, _ => bad
     else if c.startsWith "newfn" then
